@@ -152,7 +152,8 @@ def match_known(f: Finding, known: dict) -> Optional[dict]:
     k = f.key()
     for entry in known.get("known", []):
         m = entry.get("match", {})
-        if all(norm(str(m.get(x, ""))) == k[x] for x in ("property", "rule", "file", "function", "construct")):
+        # the file is recorded for the reader; a listed construct that merely moved to another module is the same finding
+        if all(norm(str(m.get(x, ""))) == k[x] for x in ("property", "rule", "function", "construct")):
             return entry
     return None
 
